@@ -211,6 +211,46 @@ def main():
                     if check(t) != 'ok':
                         mism.append(dict(w2, kind='unsound-after-workload', real=check(t)))
                     del t
+            # loading state into an object that is then used again (what a data manager does after a failed load:
+            # the object is a ghost again and the next access loads the same state into the same object)
+            for tname, mk, st_of in (('leaf-setstate-retry', lambda: leafcls(), lambda: other.__getstate__()),
+                                     ('tree-setstate-retry', lambda: cls(), lambda: build_done().__getstate__())):
+                def build_done():
+                    t_ = build(path)
+                    apply(t_, emb, tr['act'], 0)
+                    return t_
+                state = st_of()
+                tgt = mk()
+                arm(0)
+                out0 = guarded(lambda: tgt.__setstate__(state))
+                n1 = last_allocs[0]
+                want_items = [emb.rk(x) for x in tgt.keys()]
+                counts['partb_calls'] += 1
+                for n in range(1, n1 + 1):
+                    tgt = mk()
+                    arm(n)
+                    out = guarded(lambda: tgt.__setstate__(state))
+                    counts['partb_faults'] += 1
+                    w2 = dict(where, op=tname, fail_at=n, allocations=n1)
+                    if out != 'MemoryError':
+                        mism.append(dict(w2, kind='no-MemoryError', real=out))
+                    out2 = guarded(lambda: tgt.__setstate__(state))
+                    got_items = [emb.rk(x) for x in tgt.keys()]
+                    if out2 != 'ok' or got_items != want_items:
+                        mism.append(dict(w2, kind='reload-after-failed-load', model=want_items, real=[out2, got_items]))
+                    workload(tgt) if tname.startswith('tree') else [tgt.add(emb.key(r)) if is_set else tgt.__setitem__(emb.key(r), emb.val(1)) for r in (1, 5, 9, 13)]
+                    if tname.startswith('tree') and check(tgt) != 'ok':
+                        mism.append(dict(w2, kind='unsound-after-workload', real=check(tgt)))
+                    # and the other way round: inserts straight after the failed load
+                    tgt = mk()
+                    arm(n)
+                    guarded(lambda: tgt.__setstate__(state))
+                    for r in (2, 6, 10, 14, 3, 7):
+                        if is_set:
+                            tgt.add(emb.key(r))
+                        else:
+                            tgt[emb.key(r)] = emb.val(1)
+                    del tgt
             # conflict merge
             b = leafcls()
             def st(ranks):
